@@ -63,7 +63,7 @@ class Engine(object):
             if attr == 'S0' and base.ty == 'kripke':
                 return SV('set', h.field('S0', base.t))
             return SV('bound', None, (base, attr))
-        if base.ty in ('set', 'list', 'dict', 'fdict', 'keys', 'pairlist', 'str', 'coll', 'reflist'):
+        if base.ty in ('set', 'list', 'dict', 'fdict', 'keys', 'pairlist', 'str', 'coll', 'reflist', 'clist'):
             return SV('bound', None, (base, attr))
         if base.ty == 'super':
             return SV('bound', None, (base, attr))
@@ -564,6 +564,8 @@ class Engine(object):
             k.skolems(c)
         for name, f in k.requires(c):
             pc.append(f)
+            if name == 'documented_semantics':
+                ex.heavy_ids.add(f.get_id())
         env = dict(args)
         path = Path(env, h0, pc)
         if k.generator == 'H':
@@ -598,7 +600,7 @@ class Engine(object):
                     # the exception condition must be false on a normal exit
                     ex.oblige('raises:%s:if:%s' % (exc, tagp), p, z3.Not(condf(c)), ('raises',))
                 if k.frame is None:
-                    for comp, f in zip(hp.COMPONENTS.keys(), hp.same_below(c.h0, p.heap, c.h0.alloc)):
+                    for comp, f in hp.same_below(c.h0, p.heap, c.h0.alloc, named=True):
                         ex.oblige('frame:unchanged:%s:%s' % (comp, tagp), p, f, ('frame',))
                 else:
                     for name, f in k.frame(c):
@@ -608,7 +610,7 @@ class Engine(object):
                 if exc in k.raises:
                     ex.oblige('raises:%s:only_if:L%s' % (exc, ln), p, k.raises[exc](c), ('raises',), ln)
                     if k.raise_unchanged:
-                        for comp, f in zip(hp.COMPONENTS.keys(), hp.same_below(c.h0, p.heap, c.h0.alloc)):
+                        for comp, f in hp.same_below(c.h0, p.heap, c.h0.alloc, named=True):
                             ex.oblige('raises:%s:state_unchanged:%s:L%s' % (exc, comp, ln), p, f, ('frame',), ln)
                 else:
                     ex.oblige('safety:no_%s:L%s' % (exc, ln), p, z3.BoolVal(False), ('safety',), ln)
@@ -647,7 +649,7 @@ class Engine(object):
         # first attempt: e-matching only (the Boogie/Dafny discipline); stable and fast for
         # frame-style reasoning.  Second attempt (below): default configuration with MBQI.
         s0 = z3.Solver()
-        s0.set('timeout', max(2000, (timeout_ms or self.timeout_ms) // 4))
+        s0.set('timeout', max(2000, (3 * (timeout_ms or self.timeout_ms)) // 4))
         s0.set('random_seed', self.seed)
         s0.set('auto_config', False)
         s0.set('mbqi', False)
@@ -680,7 +682,7 @@ class Engine(object):
                 o.model = None
             return o
         # unknown: retry with other seeds, then cvc5
-        for seed in (self.seed + 1, self.seed + 2):
+        for seed in (self.seed + 1,):
             s.set('random_seed', seed)
             s.set('timeout', (timeout_ms or self.timeout_ms))
             r = s.check()
@@ -802,6 +804,9 @@ class Extension(object):
         return None
 
     def subscript(self, E, ex, base, idx, path, node):
+        return None
+
+    def seq_comprehension(self, E, ex, e, g, coll, path):
         return None
 
     def param_value(self, E, ex, name, ty, heap, pc):
